@@ -39,4 +39,96 @@ example : GoFuncs.verifyHeader false 0 4 0 0 77 77 5 1000 1000 false = "ErrHdrIn
 example : GoFuncs.verifyHeader true 4 4 9 9 77 77 5 1000 1001 false = "ok" := by decide
 example : GoFuncs.verifyHeader true 4 4 9 8 77 77 5 1000 1001 false = "ErrHdrInvalidStateRoot" := by decide
 
+/-! ### verifyAndPoolTx — the admission decision of a stand-alone transaction
+
+The translated function takes the outcome of every sub-check as an argument (the leaves: script validity,
+policy, on-chain conflict lookup, witnesses, attributes, mempool insertion are opaque error flags; heights, sizes
+and fees are integers) and returns the error class. -/
+
+theorem ite_eq_ok (c : Prop) [Decidable c] (a b : String) : (if c then a else b) = "ok" ↔ (c ∧ a = "ok") ∨ (¬ c ∧ b = "ok") := by
+  split <;> simp_all
+
+/-- `verifyAndPoolTx` answers "ok" exactly when every conjunct holds. -/
+theorem verifyAndPoolTx_ok_iff
+    (scriptErr : Bool) (height : Int) (partialTx : Bool) (vub inc : Int) (policyErr : Bool) (size fpb attrFee netFee : Int)
+    (chainErr isExists isConfl witErr attrErr poolErr pConf pDup pFunds pOOM pCAttr : Bool) :
+    GoFuncs.verifyAndPoolTx scriptErr height partialTx vub inc policyErr size fpb attrFee netFee
+        chainErr isExists isConfl witErr attrErr poolErr pConf pDup pFunds pOOM pCAttr = "ok"
+    ↔ (scriptErr = false ∧ height < vub ∧ (partialTx = true ∨ vub ≤ (height + inc) % 4294967296) ∧ policyErr = false
+        ∧ size ≤ 102400 ∧ size * fpb + attrFee ≤ netFee ∧ chainErr = false ∧ witErr = false ∧ attrErr = false ∧ poolErr = false) := by
+  unfold GoFuncs.verifyAndPoolTx
+  simp only [ite_eq_ok]
+  simp only [String.reduceEq, and_false, or_false, false_or, and_true]
+  grind
+
+def firstLabel : List (Bool × String) → String
+  | [] => "ok"
+  | (c, l) :: r => if c then l else firstLabel r
+
+/-- the checks of `verifyAndPoolTx` in the order the code applies them, each with the error class it yields -/
+def txChecks (scriptErr : Bool) (height : Int) (partialTx : Bool) (vub inc : Int) (policyErr : Bool) (size fpb attrFee netFee : Int)
+    (chainErr isExists isConfl witErr attrErr poolErr pConf pDup pFunds pOOM pCAttr : Bool) : List (Bool × String) :=
+  [ (scriptErr, "ErrInvalidScript"),
+    (decide (vub ≤ height), "ErrTxExpired"),
+    (!partialTx && decide (vub > (height + inc) % 4294967296), "ErrTxNotYetValid"),
+    (policyErr, "ErrPolicy"),
+    (decide (size > 102400), "ErrTxTooBig"),
+    (decide (netFee < size * fpb + attrFee), "ErrTxSmallNetworkFee"),
+    (chainErr && isExists, "ErrAlreadyExists"),
+    (chainErr && isConfl, "ErrHasConflicts"),
+    (chainErr, "bc_dao_HasTransaction_t_Hash_t_Signers_height_bc_GetMaxTraceableBlocks_err"),
+    (witErr, "bc_verifyTxWitnesses_t_nil_isPartialTx_netFee_err"),
+    (attrErr, "bc_verifyTxAttributes_bc_dao_t_isPartialTx_err"),
+    (poolErr && pConf, "ErrMemPoolConflict"),
+    (poolErr && pDup, "ErrAlreadyInPool"),
+    (poolErr && pFunds, "ErrInsufficientFunds"),
+    (poolErr && pOOM, "ErrOOM"),
+    (poolErr && pCAttr, "ErrHasConflicts"),
+    (poolErr, "pool_Add_t_feer_data_err") ]
+
+theorem verifyAndPoolTx_is_first_failing
+    (scriptErr : Bool) (height : Int) (partialTx : Bool) (vub inc : Int) (policyErr : Bool) (size fpb attrFee netFee : Int)
+    (chainErr isExists isConfl witErr attrErr poolErr pConf pDup pFunds pOOM pCAttr : Bool) :
+    GoFuncs.verifyAndPoolTx scriptErr height partialTx vub inc policyErr size fpb attrFee netFee
+        chainErr isExists isConfl witErr attrErr poolErr pConf pDup pFunds pOOM pCAttr
+    = firstLabel (txChecks scriptErr height partialTx vub inc policyErr size fpb attrFee netFee
+        chainErr isExists isConfl witErr attrErr poolErr pConf pDup pFunds pOOM pCAttr) := by
+  unfold GoFuncs.verifyAndPoolTx txChecks
+  simp only [firstLabel]
+  by_cases h1 : scriptErr = true
+  · simp [h1]
+  by_cases h2 : vub ≤ height
+  · simp [h1, h2]
+  cases partialTx
+  · by_cases h3 : vub > (height + inc) % 4294967296
+    · simp [h1, h2, h3]
+    have h3' : ¬ ((height + inc) % 4294967296 < vub) := by omega
+    by_cases h4 : policyErr = true
+    · simp [h1, h2, h3, h3', h4]
+    by_cases h5 : size > 102400
+    · simp [h1, h2, h3, h3', h4, h5]
+    by_cases h6 : netFee < size * fpb + attrFee
+    · have : netFee - (size * fpb + attrFee) < 0 := by omega
+      simp [h1, h2, h3, h3', h4, h5, h6, this]
+    have h6' : ¬ (netFee - (size * fpb + attrFee) < 0) := by omega
+    cases chainErr <;> cases isExists <;> cases isConfl <;> cases witErr <;> cases attrErr <;>
+      simp [h1, h2, h3, h3', h4, h5, h6, h6'] <;>
+      (cases poolErr <;> cases pConf <;> cases pDup <;> cases pFunds <;> cases pOOM <;> cases pCAttr <;> simp)
+  · by_cases h4 : policyErr = true
+    · simp [h1, h2, h4]
+    by_cases h5 : size > 102400
+    · simp [h1, h2, h4, h5]
+    by_cases h6 : netFee < size * fpb + attrFee
+    · have : netFee - (size * fpb + attrFee) < 0 := by omega
+      simp [h1, h2, h4, h5, h6, this]
+    have h6' : ¬ (netFee - (size * fpb + attrFee) < 0) := by omega
+    cases chainErr <;> cases isExists <;> cases isConfl <;> cases witErr <;> cases attrErr <;>
+      simp [h1, h2, h4, h5, h6, h6'] <;>
+      (cases poolErr <;> cases pConf <;> cases pDup <;> cases pFunds <;> cases pOOM <;> cases pCAttr <;> simp)
+
+-- non-vacuity: a fee one unit short is refused as ErrTxSmallNetworkFee; the exact fee passes
+example : GoFuncs.verifyAndPoolTx false 10 false 20 5760 false 250 1000 0 249999 false false false false false false false false false false false = "ErrTxSmallNetworkFee" := by decide
+example : GoFuncs.verifyAndPoolTx false 10 false 20 5760 false 250 1000 0 250000 false false false false false false false false false false false = "ok" := by decide
+example : GoFuncs.verifyAndPoolTx false 10 false 10 5760 false 250 1000 0 250000 false false false false false false false false false false false = "ErrTxExpired" := by decide
+
 end NeoModel.GoFuncsTie
